@@ -23,6 +23,9 @@ pub struct RichOpts {
     pub decoy_on: bool,
     /// always bind a holder key and always present with a KB-JWT (C04)
     pub kb_on: bool,
+    /// also feed the (possibly key-bound) presentation into a NEW holder and present again without key binding
+    /// (inputs that carry a KB-JWT are outside the listed properties: observation only, DESIGN.md 0.13)
+    pub rekb: bool,
 }
 
 pub const ISSUER_KEYS: [(&str, &str); 3] = [("K1", "ES256"), ("KE1", "EdDSA"), ("S1", "HS256")];
@@ -83,6 +86,20 @@ pub fn run(ctx: &mut Ctx, o: &RichOpts) {
         }
         let Some(pres) = pres else { continue };
         // the verifier asks for key binding when the holder provided one (and sometimes not)
+        if o.rekb {
+            // a presentation (with or without KB-JWT) given to a NEW holder in both serializations; both present again
+            // without key binding: what they emit must not depend on the serialization (C10)
+            let p3 = ctx.case * 10 + 3;
+            if let Some(mut h3) = holder_new(ctx, "P3", &pres, fmt).ok() {
+                present(ctx, "P3", &mut h3, fmt, &serde_json::Map::new(), &KbArgs::default(), p3);
+            }
+            if let Some(m) = crate::msg::split(&pres, fmt) {
+                let other = crate::msg::render(&m, fmt.other(), crate::msg::JsonVariant::KbAbsent);
+                if let Some(mut h4) = holder_new(ctx, "P4", &other, fmt.other()).ok() {
+                    present(ctx, "P4", &mut h4, fmt.other(), &serde_json::Map::new(), &KbArgs::default(), p3);
+                }
+            }
+        }
         let ask = kb.key.is_some() && (o.kb_on || r.gen_bool(0.8));
         if o.xfmt {
             // the same presentation re-expressed in the other serialization by the harness's transcoder (C10)
